@@ -18,7 +18,10 @@ def replay_e1(pid, path):
     binary = ebuild.build()
     mod = importlib.import_module("props." + E1[pid])
     text = "".join(l for l in open(path) if not l.startswith("#"))
-    subprocess.run([binary, "--trace", "-"], input=text, text=True)
+    env = dict(os.environ)
+    if "\ncfg early 1\n" in text:
+        env["DSCHED_EARLY"] = "1"
+    subprocess.run([binary, "--trace", "-"], input=text, text=True, env=env)
     eng = core.Engine(binary)
     res = eng.run(text)
     v, _, cl = mod.judge(text, res)
